@@ -356,15 +356,24 @@ def rule_memo(ctx):
     rep.ob('MEMO', 'database.Database._get_dataset::list=concatenate(recursive results in given order)', ok, gd,
            '' if ok else 'a list of names must give concatenate(*[self._get_dataset(n) for n in name])')
     # alias / names
-    gx = dbc.own('get_examples').node
+    # the alias branch may live in get_examples or in a helper it calls (inlined by the normaliser)
     ok = False
-    for n in A.walk_local(gx):
-        if isinstance(n, ast.For) and isinstance(n.iter, ast.Name):
-            src = flow.copy_prop(n.iter, gx)
-            if isinstance(src, ast.Subscript) and A.src(src.value) == 'self.alias' and A.is_name(src.slice, 'dataset_name'):
-                ok = any(isinstance(s, ast.Assign) and isinstance(s.value, ast.Subscript) and
-                         A.is_name(s.value.slice, n.target.id) and "['datasets']" in A.src(s.value.value) for s in n.body)
-    rep.ob('MEMO', 'database.Database.get_examples::alias-members-in-listed-order', ok, gx,
+    for mname, mem_ in dbc.members.items():
+        if not mem_.is_function:
+            continue
+        gx = mem_.node
+        for n in A.walk_local(gx):
+            if isinstance(n, ast.For):
+                src = flow.copy_prop(n.iter, gx)
+                if isinstance(src, ast.Subscript) and A.src(src.value) == 'self.alias' and isinstance(src.slice, ast.Name) \
+                        and isinstance(n.target, ast.Name):
+                    member = n.target.id
+                    reads = [x for x in A.walk_stmts(n.body) if isinstance(x, ast.Subscript) and A.is_name(x.slice, member)
+                             and "['datasets']" in A.src(x.value)]
+                    unfiltered = not any(isinstance(x, (ast.Continue, ast.Break)) for x in A.walk_stmts(n.body))
+                    if reads and unfiltered:
+                        ok = True
+    rep.ob('MEMO', 'database.Database.get_examples::alias-members-in-listed-order', ok, dbc.node,
            '' if ok else 'an alias must be resolved by walking self.alias[name] in order and reading data[\'datasets\'][member]')
 
 
@@ -395,8 +404,8 @@ def rule_red(ctx):
         for n in A.walk_local(dm.node):
             if isinstance(n, ast.Call) and A.dotted(n.func) == '_merge_database_dicts':
                 arg = n.args[0] if n.args else None
-                if isinstance(arg, ast.Starred) and isinstance(arg.value, ast.ListComp) \
-                        and A.is_self_attr(arg.value.generators[0].iter, '_json_path') and not arg.value.generators[0].ifs:
+                it_ = flow.list_built_over(arg, dm.node) if isinstance(arg, ast.Starred) else None
+                if it_ is not None and A.is_self_attr(it_, '_json_path'):
                     ok = True
     rep.ob('RED', 'database.JsonDatabase.data::merges-every-path-in-order', ok, dm.node if dm else jc.node,
            '' if ok else 'data must merge the JSON of every path in self._json_path, in order')
